@@ -1,4 +1,4 @@
-CONSTANTS Impl = "fixed"
+CONSTANTS Impls = {"fixed"}
           AllowPartial = TRUE
           DoEmit = TRUE
           Strata <- StrataQuick
